@@ -84,6 +84,7 @@ type Config struct {
 	Deadline    time.Time
 	Solver      string
 	AltSolver   string // used for queries with hard arithmetic, "" = none
+	NoSlice      bool  // do not restrict hard queries to the connected part of the path condition
 	KeepGlobals  bool  // keep package-level state across paths (faster, unsound if a path mutates globals)
 	NoAltSession bool  // do not keep an incremental session of the alternate solver
 	AltMs        int   // per-query timeout of that session (default 1000)
@@ -105,6 +106,8 @@ type Interp struct {
 	oneShotTime time.Duration
 	oneShotWins map[string]int
 	altWins     int
+	slicedQueries int
+	symMemo     map[*term.Term]symSet
 	prog *ssa.Program
 	ts   *term.Store
 	sol  *smt.Solver
@@ -231,8 +234,26 @@ func (it *Interp) check(q *term.Term, vars map[string]uint8) (smt.Result, map[st
 	if it.cfg.AltSolver != "" && it.hardArith(q) {
 		// division/multiplication by non-trivial operands: incremental back ends stall on these;
 		// go straight to fresh processes, integer-encoding solver first in the portfolio
+		// only the part of the path condition that shares symbols with q matters
+		pcs, qvars := it.pc, vars
+		sliced := false
+		if q != nil && !it.cfg.NoSlice {
+			sl, reach := it.slice(q)
+			if len(sl) < len(it.pc) {
+				pcs, sliced = sl, true
+				it.slicedQueries++
+				if vars != nil {
+					qvars = map[string]uint8{}
+					for n, w := range vars {
+						if _, ok := reach[n]; ok {
+							qvars[n] = w
+						}
+					}
+				}
+			}
+		}
 		// first an incremental session of the alternate back end that mirrors the path condition
-		if it.cfg.AltSolver == "cvc5-int" && !it.cfg.NoAltSession {
+		if !sliced && it.cfg.AltSolver == "cvc5-int" && !it.cfg.NoAltSession {
 			if it.alt == nil {
 				ms := it.cfg.AltMs
 				if ms <= 0 {
@@ -266,10 +287,30 @@ func (it *Interp) check(q *term.Term, vars map[string]uint8) (smt.Result, map[st
 		if ms <= 0 {
 			ms = 60000
 		}
-		r, m, kind := smt.OneShot(kinds, ms, it.pc, q, vars, dump)
+		r, m, kind := smt.OneShot(kinds, ms, pcs, q, qvars, dump)
 		it.oneShotTime += time.Since(t0)
 		if r != smt.Unknown {
 			it.oneShotWins[kind]++
+		}
+		if sliced && r == smt.Sat && vars != nil {
+			// complete the model with the current model of the untouched part of the path condition
+			if it.model != nil && len(it.trace) >= len(it.prefix) {
+				for n := range vars {
+					if _, ok := qvars[n]; !ok {
+						m[n] = it.model[n]
+					}
+				}
+			} else {
+				t1 := time.Now()
+				r2, m2, _ := smt.OneShot(kinds, ms, it.pc, q, vars, "")
+				it.oneShotTime += time.Since(t1)
+				it.oneShots++
+				if r2 == smt.Sat {
+					m = m2
+				} else {
+					m = nil
+				}
+			}
 		}
 		return r, m
 	}
@@ -1029,6 +1070,7 @@ func Explore(prog *ssa.Program, entry *ssa.Function, cfg *Config, stubs map[stri
 				res.SolverTimeS += st.Time.Seconds()
 			}
 			res.Queries["oneshot"] += it.oneShots
+			res.Queries["sliced"] += it.slicedQueries
 			for k, n := range it.oneShotWins {
 				res.Queries["oneshot_decided_"+k] += n
 			}
